@@ -188,6 +188,9 @@ impl Prop for C08 {
     fn fuzz_target(&self) -> Option<&'static str> {
         Some("fz_choices")
     }
+    fn fuzz_runs(&self) -> u64 {
+        60000
+    }
     fn stream_len(&self, _tier: Tier) -> usize {
         600
     }
